@@ -38,6 +38,8 @@ var neoKinds = []string{
 var deployKinds = []string{"deploy-neo", "deploy-wasm", "deploy-neo-wasm-magic"}
 var eipKinds = []string{
 	"evm-ong-transfer", "evm-store", "evm-kill", "evm-create", "evm-poor", "evm-lowgas",
+	"evm-create-fresh", "evm-create-fresh-kill", "evm-create-selfdestruct-init", "evm-create-outofgas",
+	"evm-factory-create", "evm-factory-create2", "evm-factory-revert",
 	"evm-badnonce", "evm-unknown-sender",
 }
 var otherKinds = []string{"bad-type"}
@@ -250,6 +252,25 @@ func (c *chain) mkTx(kind string, a uint64) (*built, error) {
 		return eip(0, c.ethNonce[c.ethAddrs[0]], &c.evmKill, 0, 100000, 0, nil, true)
 	case "evm-create":
 		return eip(1, 0, nil, int64(a%1000), 300000, 0, evmInit(evmRuntimeStore), true)
+	case "evm-create-fresh":
+		// To == nil, runtime code never stored before
+		return eip(int(a%2), c.ethNonce[c.ethAddrs[a%2]], nil, 0, 300000, 0, evmInit(c.freshRuntime(a, false)), true)
+	case "evm-create-fresh-kill":
+		return eip(0, c.ethNonce[c.ethAddrs[0]], nil, 0, 300000, 0, evmInit(c.freshRuntime(a, true)), true)
+	case "evm-create-selfdestruct-init":
+		// the init code self-destructs (after a storage write); carries fresh bytes
+		init := append([]byte{0x60, 0x05, 0x60, 0x03, 0x55, 0x33, 0xff}, c.freshRuntime(a, false)...)
+		return eip(0, c.ethNonce[c.ethAddrs[0]], nil, 0, 300000, 0, init, true)
+	case "evm-create-outofgas":
+		// enough gas to run the init code, not enough for the code deposit
+		return eip(0, c.ethNonce[c.ethAddrs[0]], nil, 0, 53000+22100+2000+uint64(a%3)*1500, 0, evmInit(c.freshRuntime(a, false)), true)
+	case "evm-factory-create":
+		return eip(0, c.ethNonce[c.ethAddrs[0]], &c.evmFact[0], 0, 300000, 0, evmInit(c.freshRuntime(a, a%2 == 1)), true)
+	case "evm-factory-create2":
+		return eip(0, c.ethNonce[c.ethAddrs[0]], &c.evmFact[1], 0, 300000, 0, evmInit(c.freshRuntime(a, false)), true)
+	case "evm-factory-revert":
+		// the child is created, then the factory reverts
+		return eip(0, c.ethNonce[c.ethAddrs[0]], &c.evmFact[2], 0, 300000, 0, evmInit(c.freshRuntime(a, false)), true)
 	case "evm-poor":
 		return eip(1, 0, &c.ethAddrs[0], 1_000_000_000_000, 100000, 0, nil, false)
 	case "evm-lowgas":
